@@ -1,0 +1,64 @@
+//go:build verif
+
+package p2p
+
+import (
+	"crypto/ecdsa"
+	"io"
+	"net"
+)
+
+// Verification hooks (property C15). Add-only accessors to the unexported
+// frame / handshake parsers; they call the production functions unchanged.
+
+// VerifNewPeer returns a Peer as DoHandshake would leave it: conn set, session key set.
+func VerifNewPeer(conn net.Conn, aesKey []byte) *Peer {
+	p := NewPeer(conn).(*Peer)
+	p.aes = aesKey
+	return p
+}
+
+// VerifAes returns the session key of a handshaken peer.
+func (p *Peer) VerifAes() []byte { return p.aes }
+
+// VerifReadConn is Peer.readConn.
+func (p *Peer) VerifReadConn() ([]byte, error) { return p.readConn() }
+
+// VerifHandle is Peer.handle.
+func (p *Peer) VerifHandle(content []byte) error { return p.handle(content) }
+
+// VerifUnpackFrame is Peer.unpackFrame.
+func (p *Peer) VerifUnpackFrame(content []byte) (MsgCode, []byte, error) {
+	return p.unpackFrame(content)
+}
+
+// VerifPackFrame is Peer.packFrame.
+func (p *Peer) VerifPackFrame(code MsgCode, msg []byte) ([]byte, error) {
+	return p.packFrame(code, msg)
+}
+
+// VerifPending is the number of messages waiting in newMsgCh.
+func (p *Peer) VerifPending() int { return len(p.newMsgCh) }
+
+// VerifReadHandshakeBuf is readHandshakeBuf.
+func VerifReadHandshakeBuf(conn io.ReadWriter, prv *ecdsa.PrivateKey) ([]byte, error) {
+	return readHandshakeBuf(conn, prv)
+}
+
+// VerifServerEncHandshake is serverEncHandshake without the test callback.
+func VerifServerEncHandshake(conn io.ReadWriter, prv *ecdsa.PrivateKey) (remoteID NodeID, aesKey []byte, err error) {
+	s, err := serverEncHandshake(conn, prv, nil)
+	if err != nil || s == nil {
+		return NodeID{}, nil, err
+	}
+	return s.RemoteID, s.Aes, nil
+}
+
+// VerifClientEncHandshake is clientEncHandshake.
+func VerifClientEncHandshake(conn io.ReadWriter, prv *ecdsa.PrivateKey, remoteID *NodeID) (aesKey []byte, err error) {
+	s, err := clientEncHandshake(conn, prv, remoteID)
+	if err != nil || s == nil {
+		return nil, err
+	}
+	return s.Aes, nil
+}
